@@ -25,6 +25,7 @@ type tfFeed struct {
 	H     int  `json:"h"`
 	C     int  `json:"c"`
 	Multi bool `json:"multi,omitempty"`
+	NoDef bool `json:"noDef,omitempty"` // a multi-collection feed over the named collections only
 	Dump  bool `json:"dump,omitempty"`
 	Cp    bool `json:"cp,omitempty"`   // with a CheckpointPrefix: the feed persists a checkpoint when it ends
 	CpSh  bool `json:"cpSh,omitempty"` // ... and the same prefix and feed ID as every other such feed
@@ -40,6 +41,7 @@ type tfCase struct {
 	Disk    bool       `json:"disk"`
 	Handles int        `json:"handles"`
 	Colls   int        `json:"colls"`
+	Names   []string   `json:"names,omitempty"` // the collections (default: the first Colls names of the pool)
 	Feeds   []tfFeed   `json:"feeds"`
 	Actions []tfAction `json:"actions"`
 	Mid     *tfMid     `json:"mid,omitempty"` // instead of Feeds/Actions: a feed stopped in the middle of a delivery
@@ -63,7 +65,7 @@ func runMidStop(c tfCase) (res shutResult) {
 		res.Devs = append(res.Devs, Deviation{Clause: clause, Props: []string{"C16"}, Sig: clause, Msg: fmt.Sprintf(f, a...) + fmt.Sprintf(" (log: %v)", res.Log)})
 	}
 	logf := func(f string, a ...any) { res.Log = append(res.Log, fmt.Sprintf(f, a...)) }
-	w, err := NewWorld(Config{Disk: c.Disk, Handles: c.Handles, Colls: allCollNames[:c.Colls]})
+	w, err := NewWorld(Config{Disk: c.Disk, Handles: c.Handles, Colls: c.collNames()})
 	if err != nil {
 		bad("tf.setup", "%v", err)
 		return
@@ -180,7 +182,7 @@ func runFeedScenario(c tfCase) (res shutResult) {
 		res.Devs = append(res.Devs, Deviation{Clause: clause, Props: c16, Sig: clause, Msg: fmt.Sprintf(f, a...) + fmt.Sprintf(" (log: %v)", res.Log)})
 	}
 	logf := func(f string, a ...any) { res.Log = append(res.Log, fmt.Sprintf(f, a...)) }
-	w, err := NewWorld(Config{Disk: c.Disk, Handles: c.Handles, Colls: allCollNames[:c.Colls]})
+	w, err := NewWorld(Config{Disk: c.Disk, Handles: c.Handles, Colls: c.collNames()})
 	if err != nil {
 		bad("tf.setup", "%v", err)
 		return
@@ -202,7 +204,7 @@ func runFeedScenario(c tfCase) (res shutResult) {
 		if f.CpSh {
 			prefix = "cp16s"
 		}
-		col, err := w.startFeed(FeedCfg{H: f.H, C: f.C, Multi: f.Multi}, backfill, f.Dump, prefix)
+		col, err := w.startFeed(FeedCfg{H: f.H, C: f.C, Multi: f.Multi, NoDefault: f.NoDef}, backfill, f.Dump, prefix)
 		if err != nil {
 			bad("tf.start", "StartDCPFeed %+v failed: %v", f, err)
 			return
@@ -263,7 +265,7 @@ func runFeedScenario(c tfCase) (res shutResult) {
 				ds := w.Coll(h, ci)
 				sentinel++
 				if err := ds.SetRaw(sentinelPrefix, 0, nil, []byte("s")); err != nil {
-					bad("tf.write", "after %s a write through open handle %d to %s failed: %v", after, h, allCollNames[ci], err)
+					bad("tf.write", "after %s a write through open handle %d to %s failed: %v", after, h, w.Cfg.Colls[ci], err)
 					continue
 				}
 				_, cas, _ := ds.GetRaw(sentinelPrefix)
@@ -289,7 +291,7 @@ func runFeedScenario(c tfCase) (res shutResult) {
 			for ci := range st.covers {
 				if cas, ok := sentCas[ci]; ok && !dropped[ci] {
 					if !st.col.waitCas(cas, 10*time.Second) {
-						bad("tf.starved", "after %s feed %d (%+v) should still be running but did not receive a write to %s made through open handle %d", after, i, c.Feeds[i], allCollNames[ci], h)
+						bad("tf.starved", "after %s feed %d (%+v) should still be running but did not receive a write to %s made through open handle %d", after, i, c.Feeds[i], w.Cfg.Colls[ci], h)
 					}
 				}
 			}
@@ -314,7 +316,7 @@ func runFeedScenario(c tfCase) (res shutResult) {
 			if dropped[ci] || !handleOpen[h] {
 				continue
 			}
-			if err := w.Handles[h].DropDataStore(dsName(allCollNames[ci])); err != nil {
+			if err := w.Handles[h].DropDataStore(dsName(w.Cfg.Colls[ci])); err != nil {
 				bad("tf.drop", "DropDataStore failed: %v", err)
 				continue
 			}
@@ -330,7 +332,7 @@ func runFeedScenario(c tfCase) (res shutResult) {
 					}
 				}
 			}
-			logf("drop %s via h%d", allCollNames[ci], h)
+			logf("drop %s via h%d", w.Cfg.Colls[ci], h)
 		case "close":
 			h := a.I % c.Handles
 			if !handleOpen[h] {
@@ -363,12 +365,12 @@ func runFeedScenario(c tfCase) (res shutResult) {
 			if !dropped[ci] || !handleOpen[h] {
 				continue
 			}
-			if err := w.Handles[h].CreateDataStore(ctx, dsName(allCollNames[ci])); err != nil {
+			if err := w.Handles[h].CreateDataStore(ctx, dsName(w.Cfg.Colls[ci])); err != nil {
 				bad("tf.recreate", "CreateDataStore failed: %v", err)
 				continue
 			}
 			dropped[ci] = false
-			logf("recreate %s via h%d", allCollNames[ci], h)
+			logf("recreate %s via h%d", w.Cfg.Colls[ci], h)
 		case "feed":
 			h := a.H % c.Handles
 			ci := a.I % c.Colls
@@ -377,12 +379,12 @@ func runFeedScenario(c tfCase) (res shutResult) {
 			}
 			col, err := w.startFeed(FeedCfg{H: h, C: ci}, sgbucket.FeedNoBackfill, false, "")
 			if err != nil {
-				bad("tf.start", "StartDCPFeed on %s via h%d failed: %v", allCollNames[ci], h, err)
+				bad("tf.start", "StartDCPFeed on %s via h%d failed: %v", w.Cfg.Colls[ci], h, err)
 				continue
 			}
 			feeds = append(feeds, &tfState{col: col, covers: map[int]bool{ci: true}})
 			c.Feeds = append(c.Feeds, tfFeed{H: h, C: ci})
-			logf("new feed on %s via h%d", allCollNames[ci], h)
+			logf("new feed on %s via h%d", w.Cfg.Colls[ci], h)
 		case "write":
 			h := openHandle()
 			if h >= 0 {
@@ -492,8 +494,28 @@ func runFeedChild(c tfCase) (shutResult, error) {
 	return shutResult{}, fmt.Errorf("child ended without a result (timeout=%v): %v %.600s", timedOut, werr, all)
 }
 
+func (c tfCase) collNames() []string {
+	if len(c.Names) == c.Colls {
+		return c.Names
+	}
+	return allCollNames[:c.Colls]
+}
+
 func genFeedCase(rt *rapid.T) tfCase {
 	c := tfCase{Disk: chance(rt, 45, "disk"), Handles: rapid.IntRange(1, 3).Draw(rt, "handles"), Colls: rapid.IntRange(2, 3).Draw(rt, "colls")}
+	if c.Colls == 3 && chance(rt, 25, "names.twin") {
+		c.Names = []string{allCollNames[0], "s1.c1", "s2.c1"} // one collection name in two scopes
+	} else if chance(rt, 40, "names") {
+		// any named collections of the pool next to the default one (same name in two scopes, names
+		// differing in case, ...)
+		c.Names = []string{allCollNames[0]}
+		rest := append([]string{}, allCollNames[1:]...)
+		for len(c.Names) < c.Colls {
+			i := rapid.IntRange(0, len(rest)-1).Draw(rt, "names.i")
+			c.Names = append(c.Names, rest[i])
+			rest = append(rest[:i], rest[i+1:]...)
+		}
+	}
 	if chance(rt, 25, "mid") {
 		m := &tfMid{Docs: rapid.IntRange(1, 40).Draw(rt, "mid.docs"), Dump: chance(rt, 50, "mid.dump"), Live: rapid.IntRange(0, 10).Draw(rt, "mid.live"),
 			C: rapid.IntRange(0, c.Colls-1).Draw(rt, "mid.c"), H: rapid.IntRange(0, c.Handles-1).Draw(rt, "mid.h"), Sibling: chance(rt, 40, "mid.sibling")}
@@ -505,6 +527,7 @@ func genFeedCase(rt *rapid.T) tfCase {
 	for i := 0; i < nf; i++ {
 		f := tfFeed{H: rapid.IntRange(0, c.Handles-1).Draw(rt, "feed.h"), C: rapid.IntRange(0, c.Colls-1).Draw(rt, "feed.c")}
 		f.Multi = chance(rt, 25, "feed.multi")
+		f.NoDef = f.Multi && chance(rt, 50, "feed.nodefault")
 		f.Dump = !f.Multi && chance(rt, 15, "feed.dump")
 		f.Cp = chance(rt, 30, "feed.cp")
 		f.CpSh = f.Cp && chance(rt, 50, "feed.cpshared")
